@@ -128,9 +128,9 @@ class AndersonCD(BaseSolver):
             if stop_crit <= self.tol:
                 break
             # 1) select features : all unpenalized, + 2 * (nnz and penalized)
+            gsupp = penalty.generalized_support(w[:n_features])
             ws_size = max(min(self.p0 + n_unpen, n_features),
-                          min(2 * penalty.generalized_support(w[:n_features]).sum() -
-                              n_unpen, n_features))
+                          min(n_unpen + 2 * (gsupp & pen).sum(), n_features))
 
             opt[unpen] = np.inf  # always include unpenalized features
             opt[penalty.generalized_support(w[:n_features])] = np.inf
